@@ -464,6 +464,19 @@ class Verifier:
         if res == 'unsat':
             return
         if res == 'sat':
+            # prefer a small counter-model (shapes <= 6, other integers within +-12) for replay
+            small = []
+            for path, t in inputs:
+                if is_z3(t) and z3.is_int(t):
+                    if 'shape' in path or path.endswith('.len'):
+                        small.append(z3.And(t >= 0, t <= 6))
+                    else:
+                        small.append(z3.And(t >= -12, t <= 12))
+            if small:
+                r2, m2, _ = solve.check(list(hyps) + [z3.Not(goal)] + small, timeout_s=5,
+                                        want_model=True, tag=o.oid + '_small')
+                if r2 == 'sat' and m2 is not None:
+                    model = m2
             o.status = REFUTED
             o.detail = f'counter-model for: {what}'
             try:
